@@ -158,8 +158,7 @@ def _inlinable(fi):
     n = fi.node
     if not isinstance(n, ast.FunctionDef) or fi.cls is not None or \
             fi.parent is not None or n.decorator_list or \
-            not fi.name.startswith('_') or fi.name.startswith('__') or \
-            n.args.kwarg is not None:
+            not fi.name.startswith('_') or fi.name.startswith('__'):
         return False
     for st in ast.walk(n):
         if isinstance(st, ast.stmt) and st is not n and not isinstance(
@@ -694,10 +693,17 @@ class Evaluator:
             if d is not None:
                 defaults[k.arg] = d
         allowed = set(names) | {k.arg for k in a.kwonlyargs}
+        extra = DictV()
         for k, v in kw.items():
-            if k not in allowed or (k in names and names.index(k) < len(args)):
+            if k in allowed and not (k in names and
+                                     names.index(k) < len(args)):
+                env[k] = v
+            elif a.kwarg is not None and k not in allowed:
+                extra.set(Const(k), v)      # collected by **kwargs
+            else:
                 return None
-            env[k] = v
+        if a.kwarg is not None:
+            env[a.kwarg.arg] = extra
         for n_ in allowed:
             if not dict.__contains__(env, n_):
                 if n_ not in defaults:
@@ -898,52 +904,52 @@ class Evaluator:
             return [k for k, _ in av.items]
         return None
 
+    def _comp_envs(self, module, gens, env, node):
+        """Environments for each combination the generators produce (nested
+        loops, filters decided on constants); None if something is unknown."""
+        envs = [env]
+        for g in gens:
+            nxt = []
+            for e0 in envs:
+                elts = self.iterate(self._eval(module, g.iter, e0))
+                if elts is None:
+                    return None
+                for e in elts:
+                    env2 = ChainEnv(e0)
+                    self.assign(module, g.target, e, env2, node)
+                    ok = True
+                    for c in g.ifs:
+                        t = self._eval(module, c, env2)
+                        if not is_const(t):
+                            return None
+                        ok = ok and bool(t.v)
+                    if ok:
+                        nxt.append(env2)
+            envs = nxt
+            if len(envs) > 5000:
+                return None
+        return envs
+
     def dictcomp(self, module, node, env):
-        if len(node.generators) != 1:
-            return Unknown('dictcomp generators', node)
-        g = node.generators[0]
-        elts = self.iterate(self._eval(module, g.iter, env))
-        if elts is None:
+        envs = self._comp_envs(module, node.generators, env, node)
+        if envs is None:
             return Unknown('dictcomp over non-literal at %s:%d' % (
                 module.rel, node.lineno), node)
         d = DictV()
         d.sites = {}
-        for e in elts:
-            env2 = ChainEnv(env)
-            self.assign(module, g.target, e, env2, node)
-            ok = True
-            for c in g.ifs:
-                t = self._eval(module, c, env2)
-                if not is_const(t):
-                    return Unknown('dictcomp filter', node)
-                ok = ok and bool(t.v)
-            if ok:
-                k = self._eval(module, node.key, env2)
-                v = self._eval(module, node.value, env2)
-                if v.site is None:
-                    v.site = (module, node.lineno)
-                d.set(k, v)
+        for env2 in envs:
+            k = self._eval(module, node.key, env2)
+            v = self._eval(module, node.value, env2)
+            if v.site is None:
+                v.site = (module, node.lineno)
+            d.set(k, v)
         return d
 
     def listcomp(self, module, node, env):
-        if len(node.generators) != 1:
-            return Unknown('comprehension generators', node)
-        g = node.generators[0]
-        elts = self.iterate(self._eval(module, g.iter, env))
-        if elts is None:
+        envs = self._comp_envs(module, node.generators, env, node)
+        if envs is None:
             return Unknown('comprehension over non-literal', node)
-        out = []
-        for e in elts:
-            env2 = ChainEnv(env)
-            self.assign(module, g.target, e, env2, node)
-            ok = True
-            for c in g.ifs:
-                t = self._eval(module, c, env2)
-                if not is_const(t):
-                    return Unknown('comprehension filter', node)
-                ok = ok and bool(t.v)
-            if ok:
-                out.append(self._eval(module, node.elt, env2))
+        out = [self._eval(module, node.elt, env2) for env2 in envs]
         return SeqV('set' if isinstance(node, ast.SetComp) else 'list', out)
 
 
